@@ -49,9 +49,11 @@ EXPLANATION = (
     'with an id in [0,npart) and the other slots keep REF_EMPTY, so the range check of '
     'ref_migrate_report_load_balance never fires (rcb_part_total, rcb_new_part_ok, rcb_single_cases); split_ratio '
     'and termination (rcb_ratio); half sizes up to the ties at the cut values given exact k-th values '
-    '(rcb_balanced_partial); the part of a vertex is a function of its coordinates and of the multiset of owned '
+    '(rcb_balanced_partial; with the truncated positions the C computes half 0 is within 2 plus the surplus ties of '
+    'N*npart0/npart: rcb_balanced_target_partial); the part of a vertex is a function of its coordinates and of the multiset of owned '
     'coordinates, the rand stream, seed and np - not of the distribution over ranks, the order on a rank or slot '
-    'labels (rcb_cut_data_only, rcb_deterministic_in_data, rcb_equal_points_same_part). Tie: streams rcb_fn '
+    'labels (rcb_cut_data_only, rcb_deterministic_in_data, rcb_equal_points_same_part, rcb_part_deterministic for the '
+    'node_part arrays). Tie: streams rcb_fn '
     '(white-box static ref_migrate_new_part + ref_node_ghost_int, ref_migrate_split_dir, ref_migrate_split_ratio; '
     'libc rand() replaced in the harness so the stream is an input) and rcb_balance (the real ref_migrate_to_balance '
     'on grids without cells, incl. the keep-small-grids-on-few-ranks heuristic) at np = 1,2,3,4,5,8: part arrays '
